@@ -58,6 +58,14 @@ def install_post(cls, name, condition, description, force_plain=False):
   return engine
 
 
+def original(cls, name):
+  """The undecorated function (first installed original), or the current attribute."""
+  for c, n, orig in _INSTALLED:
+    if c is cls and n == name:
+      return orig
+  return cls.__dict__[name]
+
+
 def uninstall_all():
   while _INSTALLED:
     cls, name, orig = _INSTALLED.pop()
